@@ -1528,6 +1528,10 @@ Error Assembler::_emit(InstId inst_id, const Operand_& o0, const Operand_& o1, c
           goto InvalidInstruction;
         }
 
+        // CMN|CMP (extended register) - ZR is not allowed as Rn (register 31 encodes SP in this position).
+        if (!check_gp_id(o0, kSP))
+          goto InvalidPhysId;
+
         opcode.reset(uint32_t(op_data.extended_op) << 21);
         opcode.add_imm(x, 31);
         opcode.add_reg(o1, 16);
